@@ -177,6 +177,7 @@ func zzLive() int {
 	return n
 }
 func zzUnwind(n int, isBug bool)   {}
+func zzTimers(n int)               {}
 func zzClockAdvance(d int64)       { }
 func zzSameObject(a, b interface{}) bool { return a == b }
 func zzAliases(a, b []byte) bool {
